@@ -1,2 +1,3 @@
 import PyOak.Props.C04
 import PyOak.Props.C04Origin
+import PyOak.Props.C04Value
